@@ -189,7 +189,7 @@ def rule_sentinel(ctx: Ctx):
     c03.rule_first(ctx, rule="C11.sentinel")
 
 
-def rule_target(ctx: Ctx):
+def rule_target(ctx: Ctx, rule: str = "C11.target"):
     rep = ctx.rep
     fn = ctx.fn("StateMachine._get_initial_state")
     n = 0
@@ -201,26 +201,34 @@ def rule_target(ctx: Ctx):
             if isinstance(x, ast.Compare) and len(x.ops) == 1 and isinstance(x.ops[0], ast.Is) and {show(x.left), show(x.comparators[0])} == {"self.start_value", "None"}:
                 sv = not b.x["taken"]
             elif show(x) == "self.start_value":
-                rep.violation("C11.target", b.loc(), "start_value is tested for truthiness: a falsy start value (0) is ignored", fn.key, norm_stmt(b.node))
+                rep.violation(rule, b.loc(), "start_value is tested for truthiness: a falsy start value (0) is ignored", fn.key, norm_stmt(b.node))
                 sv = b.x["taken"]
         if p.kind == "return":
             n += 1
             v = xshow(p.value, evs)
             if sv is True:
-                rep.check(v == "self.states_map[self.start_value]", "C11.target", fn.loc(), "a given start_value selects the starting state", fn.key, f"return {v}")
+                rep.check(v == "self.states_map[self.start_value]", rule, fn.loc(), "a given start_value selects the starting state", fn.key, f"return {v}")
             elif sv is False:
-                rep.check(v == "self.states_map[self.initial_state.value]", "C11.target", fn.loc(), "without start_value the declared initial state is used",
+                rep.check(v == "self.states_map[self.initial_state.value]", rule, fn.loc(), "without start_value the declared initial state is used",
                           fn.key, f"return {v}")
             else:
-                rep.violation("C11.target", fn.loc(), "the starting state is chosen without asking whether start_value was given", fn.key, f"return {v}")
+                rep.violation(rule, fn.loc(), "the starting state is chosen without asking whether start_value was given", fn.key, f"return {v}")
         elif p.kind == "raise" and any(e.kind == "handler" for e in evs):
             v = xshow(p.value, evs)
-            rep.check(v.startswith("InvalidStateValue("), "C11.target", fn.loc(), "an unmapped start value raises InvalidStateValue", fn.key, f"raise {v}")
-    rep.floor("C11.target", "returning paths of _get_initial_state", n, 2)
+            rep.check(v.startswith("InvalidStateValue("), rule, fn.loc(), "an unmapped start value raises InvalidStateValue", fn.key, f"raise {v}")
+    rep.floor(rule, "returning paths of _get_initial_state", n, 2)
     it = ctx.fn("BaseEngine._initial_transition")
     for p in ctx.paths(it, inline=None, exc_edges="none"):
         v = xshow(p.value, p.events) if p.kind == "return" else ""
-        rep.check("self.sm._get_initial_state()" in v, "C11.target", it.loc(), "initial activation enters the state chosen by _get_initial_state", it.key, f"return {v}")
+        rep.check("self.sm._get_initial_state()" in v, rule, it.loc(), "initial activation enters the state chosen by _get_initial_state", it.key, f"return {v}")
 
 
-RULES = [rule_identity, rule_guard, rule_who, rule_constructor, rule_reactivation, rule_sentinel, rule_target, rule_model]
+def rule_restore_gate(ctx: Ctx):
+    """C11.guard: a restored machine activates only when the saved state says the original had not been activated (the model
+    of a copy under construction may still be empty, so looking at it would re-enter the initial state)."""
+    from . import c17
+
+    c17.rule_steps(ctx, rule="C11.guard")
+
+
+RULES = [rule_identity, rule_guard, rule_who, rule_constructor, rule_reactivation, rule_sentinel, rule_target, rule_model, rule_restore_gate]
